@@ -392,7 +392,10 @@ async fn archive_folder(
     name: &str,
     checksum: Vec<u8>,
 ) -> Result<ArchiveItem> {
-    let data = reader.by_name(name).await?.unwrap();
+    let data = reader
+        .by_name(name)
+        .await?
+        .ok_or_else(|| Error::NoArchiveVault(PathBuf::from(name)))?;
     let digest = Sha256::digest(&data);
     if checksum != digest.to_vec() {
         return Err(Error::ArchiveChecksumMismatch(name.to_string()));
@@ -406,7 +409,10 @@ async fn archive_buffer(
     name: &str,
     checksum: Vec<u8>,
 ) -> Result<Vec<u8>> {
-    let data = reader.by_name(name).await?.unwrap();
+    let data = reader
+        .by_name(name)
+        .await?
+        .ok_or_else(|| Error::NoArchiveVault(PathBuf::from(name)))?;
     let digest = Sha256::digest(&data);
     if checksum != digest.to_vec() {
         return Err(Error::ArchiveChecksumMismatch(name.to_string()));
